@@ -1,0 +1,33 @@
+//go:build verif
+
+package internal
+
+import (
+	"fmt"
+
+	"github.com/lyraproj/pcore/px"
+)
+
+// Verification hook (build tag `verif` only, add-only): the result of describe() before it is formatted,
+// with the same subject path element that px.DescribeMismatch uses, and whether the types carried by a
+// mismatch are present.
+func init() {
+	px.VerifDescribeTyped = func(name string, expected, actual px.Type) []px.VerifTypedMismatch {
+		result := describe(expected, actual, []*pathElement{{fmt.Sprintf("function %s:", name), subject}})
+		out := make([]px.VerifTypedMismatch, len(result))
+		for i, m := range result {
+			p := m.path()
+			vp := make([]px.VerifPathElem, len(p))
+			for j, pe := range p {
+				vp[j] = px.VerifPathElem{Kind: string(pe.pathType), Key: pe.key}
+			}
+			out[i] = px.VerifTypedMismatch{Class: string(m.class()), Path: vp}
+			if ea, ok := m.(expectedActualMismatch); ok {
+				out[i].HasTypes = true
+				out[i].ExpectedNil = ea.expected() == nil
+				out[i].ActualNil = ea.actual() == nil
+			}
+		}
+		return out
+	}
+}
